@@ -71,4 +71,15 @@ CHECKS = {
                 "every odd sequence number deterministically. Non-trivial: flags != 0, minor 1, depth >= 2, last seq >= 253, RESTART.",
         "assumptions": COMMON_ASSUME + ["one reply per handler invocation (double replies are C07's concern)", "RESTART in answer to request 255 is not generated (statement ambiguous there)"],
     },
+    "C08": {
+        "quick": 3000, "thorough": 150000,
+        "rule": "rapid draws a history of 1..24 packets on one connection over a pool of 3 session ids; each sequence number is chosen "
+                "relative to a reference model of the session table (next valid, replay of last received/sent, last-1, last-2, even, "
+                "1, 253..255, uniform, forward jump), each with a handler behaviour (reply or not, register a continuation or not); "
+                "oracle: reference model (dispatch iff odd and > every number received or sent in the session; to the session's own "
+                "continuation if one is registered else the initial handler; finished sessions forgotten; otherwise no handler and "
+                "connection closed) compared after every step with the handler tag actually invoked and open/closed. Plus all "
+                "(first, second) pairs deterministically. Non-trivial: history contains a replay, even number, decrease, jump>=4 or 255.",
+        "assumptions": COMMON_ASSUME + ["handlers never pair a RESTART reply with a continuation (no defined meaning in RFC 8907)"],
+    },
 }
